@@ -174,4 +174,94 @@ theorem rootMove_splitsEquiv (d : NodeD) (p : Nat) (kids : Kids) (i : Nat) (e : 
       rw [h]; exact sameSplit_symm hsub2 hcompl
     · exact ⟨s, (hold s).2 (Or.inr (Or.inr h)), sameSplit_refl _ _⟩
 
+theorem splitsEquiv_congr_all {all all' : List String} (b b' : T) (h : ∀ x, x ∈ all ↔ x ∈ all') :
+    splitsEquiv all b b' = splitsEquiv all' b b' := by
+  unfold splitsEquiv
+  simp only [sameSplit_congr_all h]
+
+theorem splitsEquiv_refl (all : List String) (b : T) : splitsEquiv all b b = true :=
+  splitsEquiv_of (fun s hs => ⟨s, hs, sameSplit_refl _ _⟩) (fun s hs => ⟨s, hs, sameSplit_refl _ _⟩)
+
+theorem repres_refl (all : List String) : ∀ (bs : List T), Repres all bs bs
+  | [] => trivial
+  | b :: bs => ⟨splitsEquiv_refl all b, repres_refl all bs⟩
+
+/-- the tips of the moved tree are the tips of the tree, in another order -/
+theorem rootMove_leaves (d : NodeD) (p : Nat) (kids : Kids) (i : Nat) (e : EdgeD) (dc : NodeD)
+    (pc : Nat) (kc : Kids) (hi : kids[i]? = some (e, .node dc pc kc)) (hkc : kc ≠ [])
+    (hk : kids.length ≠ 1) :
+    (rootMove (.node d p kids) i).kids.length ≠ 1 ∧
+    (leavesL (rootMove (.node d p kids) i).kids).Perm (leavesL kids) := by
+  obtain ⟨hsplit, herase⟩ := split_at kids i _ hi
+  have hK' : kids.eraseIdx i ≠ [] := by
+    intro h0
+    have : (kids.eraseIdx i).length = 0 := by rw [h0]; rfl
+    rw [List.length_eraseIdx] at this
+    have hlt : i < kids.length := by
+      rcases Nat.lt_or_ge i kids.length with h | h
+      · exact h
+      · rw [List.getElem?_eq_none h] at hi; cases hi
+    simp [hlt] at this; omega
+  have hnew : rootMove (.node d p kids) i =
+      .node dc 0 (kc.take pc ++ (e, .node d i (kids.eraseIdx i)) :: kc.drop pc) := by
+    simp [rootMove, hi]
+  rw [hnew]
+  simp only [T.kids_node]
+  constructor
+  · have hpos : 0 < kc.length := List.length_pos_iff.2 hkc
+    simp only [List.length_append, List.length_cons, List.length_take, List.length_drop]
+    omega
+  · have hold : leavesL kids = leavesL (kids.take i) ++ (leavesL kc ++ leavesL (kids.drop (i + 1))) := by
+      conv => lhs; rw [hsplit]
+      rw [leavesL_append]
+      simp [leavesL, leaves_of_kids dc pc kc hkc]
+    have hkc' : leavesL kc = leavesL (kc.take pc) ++ leavesL (kc.drop pc) := by
+      rw [← leavesL_append, List.take_append_drop]
+    rw [hold, hkc', leavesL_append]
+    have hK'' : kids.take i ++ kids.drop (i + 1) ≠ [] := by rw [← herase]; exact hK'
+    simp only [leavesL, herase, leaves_of_kids _ _ _ hK'', leavesL_append, List.append_nil]
+    -- B1 ++ ((A ++ C) ++ B2)  ~  A ++ ((B1 ++ B2) ++ C)
+    generalize leavesL (kids.take i) = A
+    generalize leavesL (kids.drop (i + 1)) = C
+    generalize leavesL (kc.take pc) = B1
+    generalize leavesL (kc.drop pc) = B2
+    have s1 : (B1 ++ ((A ++ C) ++ B2)).Perm (B1 ++ (B2 ++ (A ++ C))) :=
+      List.Perm.append_left _ List.perm_append_comm
+    have s2 : (B1 ++ (B2 ++ (A ++ C))).Perm ((A ++ C) ++ (B1 ++ B2)) := by
+      rw [← List.append_assoc]; exact List.perm_append_comm
+    have s3 : ((A ++ C) ++ (B1 ++ B2)).Perm (A ++ ((B1 ++ B2) ++ C)) := by
+      rw [List.append_assoc]
+      exact List.Perm.append_left _ List.perm_append_comm
+    exact (s1.trans s2).trans s3
+
+/-- the moved tree is a well-formed presentation of the same tree -/
+theorem rootMove_ok (t : T) (i : Nat) (e : EdgeD) (dc : NodeD) (pc : Nat) (kc : Kids)
+    (ht : treeOK t = true) (hi : t.kids[i]? = some (e, .node dc pc kc)) (hkc : kc ≠ []) :
+    treeOK (rootMove t i) = true ∧ sameTaxa t (rootMove t i) = true ∧
+    splitsEquiv t.tipNames t (rootMove t i) = true := by
+  obtain ⟨hn, htl, hk, _⟩ := treeOK_facts t ht
+  cases t with
+  | node d p kids =>
+    simp only [T.kids_node] at hi hk htl
+    obtain ⟨hk', hperm⟩ := rootMove_leaves d p kids i e dc pc kc hi hkc hk
+    have hk'' : ((rootMove (.node d p kids) i).kids.length != 1) = true := by simpa using hk'
+    have htl' := tipNames_of_rootNotTip _ hk''
+    have hn' : (rootMove (.node d p kids) i).tipNames.Nodup := by
+      rw [htl', hperm.nodup_iff, ← htl]; exact hn
+    have hne : (rootMove (.node d p kids) i).tipNames ≠ [] := by
+      intro h0
+      have := hperm.length_eq
+      rw [← htl', h0, ← htl] at this
+      simp only [treeOK, reinitOk, Bool.and_eq_true, Bool.not_eq_true', List.isEmpty_eq_false_iff] at ht
+      exact ht.1.2 (List.eq_nil_of_length_eq_zero this.symm)
+    refine ⟨?_, ?_, ?_⟩
+    · simp [treeOK, reinitOk, hn', hne, hk']
+    · rw [sameTaxa_iff]
+      intro x
+      rw [htl, htl']
+      exact hperm.mem_iff.symm
+    · rw [htl]
+      rw [htl] at hn
+      exact rootMove_splitsEquiv d p kids i e dc pc kc hi hkc hk hn
+
 end Gotree.C10
